@@ -118,3 +118,12 @@ Print Assumptions C14_str2int_shape_separates.
 Theorem C14_emit_inf_guard : EMIT_INF_GUARD_IS_ISINFINITE = true.
 Proof. exact emit_inf_guard. Qed.
 Print Assumptions C14_emit_inf_guard.
+
+(* scraped fact the float32 streams rely on (trip-wire, 2e78fcf): CEmitter:add_scalar_literal rounds a float32 constant to
+   the nearest float32 before printing its 9 digits - to infinity exactly from FLT_MAX + half ulp (0x1.ffffffp+127) on,
+   to FLT_MAX between FLT_MAX and that threshold, by the C conversion below - so the text is that of a float32 value and
+   the C compiler's reading of it is exact.  Removing the block, or moving the threshold (the seeded change C14-D), makes
+   this false.  That the rounding itself is to nearest-even is tested bit for bit on the boundary streams, not proved. *)
+Theorem C14_emit_f32_rounded_first : EMIT_F32_ROUNDED_BEFORE_PRINTING = true.
+Proof. exact emit_f32_rounded_first. Qed.
+Print Assumptions C14_emit_f32_rounded_first.
